@@ -112,7 +112,10 @@ namespace ST
         size_t size() const noexcept { return m_size; }
 
     private:
-        char m_buffer[64];
+        // Large enough for "%f" of the largest finite value:
+        // sign, max_exponent10 + 1 digits, '.', 6 decimals and the NUL
+        char m_buffer[std::numeric_limits<float_T>::max_exponent10 + 10 < 64
+                      ? 64 : std::numeric_limits<float_T>::max_exponent10 + 10];
         size_t m_size;
     };
 }
